@@ -11,6 +11,18 @@ PROPS = {
                 quick=dict(runs=1600, budget_s=60, min_runs=200),
                 thorough=dict(runs=40000, budget_s=600, min_runs=2000),
                 watchdog_s=30, spot=6),
+    'C01': dict(engine='solver_sim',
+                quick=dict(runs=1600, budget_s=90, min_runs=150),
+                thorough=dict(runs=20000, budget_s=900, min_runs=1500),
+                watchdog_s=120, spot=4),
+    'C06': dict(engine='solver_sim',
+                quick=dict(runs=1600, budget_s=90, min_runs=150),
+                thorough=dict(runs=20000, budget_s=900, min_runs=1500),
+                watchdog_s=120, spot=4),
+    'C19': dict(engine='solver_sim',
+                quick=dict(runs=1200, budget_s=90, min_runs=100),
+                thorough=dict(runs=15000, budget_s=900, min_runs=1000),
+                watchdog_s=120, spot=4),
 }
 
 
